@@ -39,6 +39,8 @@ type c08Env struct {
 	offset atomic.Int64
 	mu     sync.Mutex
 	purged map[string]map[int64]bool // uri -> fetch ids that existed when a purge completed
+	infl   map[string]int            // client requests in flight per uri
+	starts map[string]int            // client requests started per uri
 	trace  []string
 }
 
@@ -151,22 +153,41 @@ func (e *c08Env) judge(res *hx.Result, phase string) bool {
 }
 
 func (e *c08Env) get(uri string) *hx.Result {
-	return e.cl.Do(hx.Req{Addr: e.addr, Host: "c08.example", URI: uri, Timeout: 10 * time.Second})
+	e.mu.Lock()
+	e.infl[uri]++
+	e.starts[uri]++
+	e.mu.Unlock()
+	res := e.cl.Do(hx.Req{Addr: e.addr, Host: "c08.example", URI: uri, Timeout: 10 * time.Second})
+	e.mu.Lock()
+	e.infl[uri]--
+	e.mu.Unlock()
+	return res
 }
 
 func (e *c08Env) purge(uri string) bool {
-	// versions that exist now are purged once the purge completes
+	// versions that exist now are purged once the purge completes - provided no request on the key
+	// overlaps the purge (which way a purge concurrent with a request or fetch is ordered is not judged)
 	existing := map[int64]bool{}
 	for _, f := range e.farm.Log() {
 		if f.URI == uri {
 			existing[f.ID] = true
 		}
 	}
+	e.mu.Lock()
+	quiet := e.infl[uri] == 0
+	startsBefore := e.starts[uri]
+	e.mu.Unlock()
 	q := url.Values{}
 	q.Set("key", "GET c08.example "+uri)
 	res := e.cl.Do(hx.Req{Method: "DELETE", Addr: e.admin, URI: "/cache?" + q.Encode(), Timeout: 5 * time.Second})
 	if res.Err == nil && res.Status == 204 {
 		e.mu.Lock()
+		if !quiet || e.starts[uri] != startsBefore {
+			e.mu.Unlock()
+			e.r.Add("purges_overlapping_a_request_(not_judged)", 1)
+			return true
+		}
+		e.r.Add("purges_completed_at_key_quiescence", 1)
 		if e.purged[uri] == nil {
 			e.purged[uri] = map[int64]bool{}
 		}
@@ -193,7 +214,7 @@ func (e *c08Env) start(phase string) bool {
 func c08Run(r *hx.Run, bin string, c c08Case, rnd *rand.Rand) {
 	dir := filepath.Join(r.Scratch, fmt.Sprintf("c08-%d", c.ID))
 	ports := hx.FreePorts(2)
-	e := &c08Env{r: r, c: c, purged: map[string]map[int64]bool{}}
+	e := &c08Env{r: r, c: c, purged: map[string]map[int64]bool{}, infl: map[string]int{}, starts: map[string]int{}}
 	e.farm = hx.NewFarm(1, e.now)
 	defer e.farm.Close()
 	e.farm.SetScript(e.script)
@@ -385,6 +406,24 @@ func c08Run(r *hx.Run, bin string, c c08Case, rnd *rand.Rand) {
 			return
 		}
 	}
+	// ---- incarnation 4: killed again, restarted when every stored version is past its expiry: the very
+	// first lookup of each key after the restart must not serve the stored record
+	e.pike.Kill()
+	e.setNow(e.now() + c08T + 5)
+	if !e.start("restart_after_expiry") {
+		return
+	}
+	r.Add("restarts_with_everything_expired", 1)
+	for _, k := range all {
+		res := e.get(k)
+		if !e.judge(res, "first_lookup_after_restart_past_expiry") {
+			return
+		}
+		if res.Label == "hit" {
+			r.Violate("served_after_original_expiry", map[string]string{"kind": e.c.Kind, "point": e.c.Point}, "hit on the first lookup after a restart although every version had expired", res.Brief(), map[string]interface{}{"case": e.c, "uri": k})
+			return
+		}
+	}
 	r.Eval(1)
 	r.Distinct(fmt.Sprintf("%s %s #%d", c.Kind, c.Point, c.Nth))
 	if c.ID < 3 {
@@ -397,7 +436,7 @@ func c08Run(r *hx.Run, bin string, c c08Case, rnd *rand.Rand) {
 
 func c08(r *hx.Run) {
 	r.Level = "fault_enumeration"
-	r.Rule = "real pike binary (race build) with a badger store and a clock file. Per case three incarnations on the same store: (1) populate cacheable (T=100) and uncacheable (period 20 s) keys, SIGKILL at quiescence; (2) concurrent writes of 40 new keys, hits and purges (admin API) with the crash armed: self-kill the n-th time a named hook point is reached (cacheable.enter/released/saved, hfp.enter/released/saved, get.loaded, purge.removed; n first/middle/late), external SIGKILL at a random moment, or SIGTERM; (3) restart and probe every key in the same second, at mid-life, at the exact expiry second and one second later. Every answer is judged against the origin's log: byte-identical version of that key, hit only inside the version's original lifetime with Age continuing from the original fetch and no upstream contact, never a version whose purge completed, hit-for-pass only inside a marker's period; pike must come up after every stop. Non-trivial/distinct = (kind, point, n) whose crash point was reached."
+	r.Rule = "real pike binary (race build) with a badger store and a clock file. Per case three incarnations on the same store: (1) populate cacheable (T=100) and uncacheable (period 20 s) keys, SIGKILL at quiescence; (2) concurrent writes of 40 new keys, hits and purges (admin API) with the crash armed: self-kill the n-th time a named hook point is reached (cacheable.enter/released/saved, hfp.enter/released/saved, get.loaded, purge.removed; n first/middle/late), external SIGKILL at a random moment, or SIGTERM; (3) restart and probe every key in the same second, at mid-life, at the exact expiry second and one second later; (4) SIGKILL, move the clock past every expiry, restart, probe again (first lookup after the restart). Every answer is judged against the origin's log: byte-identical version of that key, hit only inside the version's original lifetime with Age continuing from the original fetch and no upstream contact, never a version whose purge completed, hit-for-pass only inside a marker's period; pike must come up after every stop. Non-trivial/distinct = (kind, point, n) whose crash point was reached."
 	r.Assume = []string{"refetching is always allowed (survival of an entry is not demanded)", "clock = real clock + offset file (whole seconds); verdicts use [call,return] clock intervals", "power-loss durability is out of scope (SIGKILL keeps the page cache)"}
 	bin, err := hx.BuildPike(r.Scratch)
 	if err != nil {
